@@ -878,6 +878,21 @@ impl Frame {
             header.channel_assignment().channels() == subframes.len(),
             "must match to the channel specification in the header"
         )?;
+        for (ch, sf) in subframes.iter().enumerate() {
+            verify_true!(
+                "subframes[{ch}]",
+                sf.block_size() == header.block_size(),
+                "must have the block size specified in the header"
+            )?;
+            if let Some(bits) = header.bits_per_sample() {
+                verify_true!(
+                    "subframes[{ch}]",
+                    sf.bits_per_sample()
+                        == bits + header.channel_assignment().bits_per_sample_offset(ch),
+                    "must have the sample size specified in the header"
+                )?;
+            }
+        }
         Ok(Self::from_parts(header, subframes))
     }
 
@@ -1812,6 +1827,28 @@ pub enum SubFrame {
     FixedLpc(FixedLpc),
     /// This variant contains [`Lpc`] sub-frame.
     Lpc(Lpc),
+}
+
+impl SubFrame {
+    /// Returns the number of samples encoded in this subframe.
+    pub(crate) fn block_size(&self) -> usize {
+        match self {
+            Self::Constant(c) => c.block_size(),
+            Self::Verbatim(c) => c.samples().len(),
+            Self::FixedLpc(c) => c.residual().block_size(),
+            Self::Lpc(c) => c.residual().block_size(),
+        }
+    }
+
+    /// Returns the sample size (in bits) of this subframe.
+    pub(crate) fn bits_per_sample(&self) -> usize {
+        match self {
+            Self::Constant(c) => c.bits_per_sample(),
+            Self::Verbatim(c) => c.bits_per_sample(),
+            Self::FixedLpc(c) => c.bits_per_sample(),
+            Self::Lpc(c) => c.bits_per_sample(),
+        }
+    }
 }
 
 impl From<Constant> for SubFrame {
